@@ -8,6 +8,9 @@ def Obj.isLeaf : Obj → Bool
   | .none | .bool _ | .int _ | .flt _ | .str _ | .bytes _ => true
   | _ => false
 
+theorem noEnum_of_allLeaf {vs : List Obj} (h : vs.all Obj.isLeaf = true) : litHasEnum vs = false :=
+  noEnum_of_all (fun _ _ => rfl) h
+
 mutual
 /-- Python objects have duplicate-free dict keys (abstract `Obj` terms need not): the objects that exist. -/
 def Obj.valid : Obj → Bool
@@ -79,7 +82,8 @@ structure World.WFE (w : World) : Prop where
 
 /-- types whose values and encodings are hashable leaves: usable as set elements and mapping keys -/
 def Ty.hashPrim : Ty → Bool
-  | .int | .float | .str | .bytes | .bool | .enum _ | .lit _ => true
+  | .int | .float | .str | .bytes | .bool | .enum _ => true
+  | .lit vs => !litHasEnum vs      -- (an enum-member literal as set element / mapping key: outside the scope)
   | .opt t => t.hashPrim
   | .wrap _ t => t.hashPrim
   | _ => false
@@ -200,7 +204,7 @@ sub-union a member payload can be routed to (`Disambig.deepOk`, the hypothesis o
 def unionOKB (w : World) (cs : List Nat) : Bool :=
   decide cs.Nodup && unionMembersOk w cs
   && Disambig.deepOk Disambig.SetOrder.id w.table cs.length cs
-  && cs.all (fun c => (w.fields c).all (fun f => match f.ty with | some (.lit _) => f.init | _ => true))
+  && cs.all (fun c => (w.fields c).all (fun f => match f.ty with | some (.lit vs) => f.init && !litHasEnum vs | _ => true))
 
 theorem unionOKB_notNT {w : World} {cs : List Nat} (h : unionOKB w cs = true) {c : Nat} (hc : c ∈ cs) :
     w.isNT c = false := by
@@ -208,11 +212,25 @@ theorem unionOKB_notNT {w : World} {cs : List Nat} (h : unionOKB w cs = true) {c
   simp only [Bool.and_eq_true] at h
   exact unionMembersOk_notNT h.1.1.2 hc
 
+/-- an argument a `Literal[...]` may hold: a genuine member of an enum of the world, or a leaf value -/
+def litArgOK (w : World) : Obj → Bool
+  | .enumM e m => decide (m < (w.members e).length)
+  | x => x.isLeaf
+
+/-- **Round-trip scope of one `Literal[...]` containing enum members**: every argument is found again under its own
+key in `_structure_enum_literal`'s dict `{key(a): a for a in args}` -- i.e. the keys (a member's value, a plain value
+itself) are pairwise different under `==`: of two arguments with `==` keys only the later one could come back.
+(`Literal[E.A, 1]` with `E.A.value == 1` is outside: `1` is found, `E.A` is not.)  Literals of plain values always are
+in scope. -/
+def litOK (w : World) (vs : List Obj) : Bool :=
+  !litHasEnum vs || (vs.all (litArgOK w) && vs.all (fun v => litLookup w vs (litKey w v) == some v))
+
 mutual
-/-- every union inside the type is in the round-trip scope; under the tuple strategy (`tup`) no union is: the
-decision function only accepts mappings -/
+/-- every union (and every enum-member literal, `litOK`) inside the type is in the round-trip scope; under the tuple
+strategy (`tup`) no union is: the decision function only accepts mappings -/
 def Ty.unionsOK (w : World) (tup : Bool) : Ty → Bool
   | .union cs _ => !tup && unionOKB w cs
+  | .lit vs => litOK w vs
   | .coll _ t => t.unionsOK w tup
   | .tupleHet ts => Ty.unionsOKL w tup ts
   | .map _ kt vt => kt.unionsOK w tup && vt.unionsOK w tup
@@ -231,9 +249,10 @@ def World.unionsOK (w : World) (tup : Bool) : Prop :=
   ∀ c, ∀ f ∈ w.fields c, ∀ t, f.ty = some t → t.unionsOK w tup = true
 
 mutual
-/-- no union anywhere in the type -/
+/-- no union (and no enum-member literal) anywhere in the type -/
 def Ty.noUnion : Ty → Bool
   | .union _ _ => false
+  | .lit vs => !litHasEnum vs
   | .coll _ t => t.noUnion
   | .tupleHet ts => Ty.noUnionL ts
   | .map _ kt vt => kt.noUnion && vt.noUnion
@@ -258,9 +277,12 @@ theorem noUnion_unionsOK (w : World) (tup : Bool) : ∀ t : Ty, t.noUnion = true
       exact ⟨noUnion_unionsOK w tup kt h.1, noUnion_unionsOK w tup vt h.2⟩
   | .opt t, h => by simp only [Ty.noUnion] at h; simp only [Ty.unionsOK]; exact noUnion_unionsOK w tup t h
   | .wrap _ t, h => by simp only [Ty.noUnion] at h; simp only [Ty.unionsOK]; exact noUnion_unionsOK w tup t h
-  | .any, _ | .int, _ | .float, _ | .str, _ | .bytes, _ | .bool, _ | .enum _, _ | .lit _, _ | .cls _, _ | .td _, _
+  | .any, _ | .int, _ | .float, _ | .str, _ | .bytes, _ | .bool, _ | .enum _, _ | .cls _, _ | .td _, _
   | .nt _, _ => by
       simp [Ty.unionsOK]
+  | .lit vs, h => by
+      simp only [Ty.noUnion] at h
+      simp only [Ty.unionsOK, litOK, h, Bool.true_or]
 theorem noUnionL_unionsOKL (w : World) (tup : Bool) : ∀ ts : List Ty, Ty.noUnionL ts = true → Ty.unionsOKL w tup ts = true
   | [], _ => by simp [Ty.unionsOKL]
   | t :: ts, h => by
@@ -307,59 +329,97 @@ theorem un_opt_some {t : Ty} {x : Obj} (hx : x ≠ .none) (hg : cfg.gen = true) 
 theorem conf_opt_some {t : Ty} {x : Obj} (hx : x ≠ .none) : conf w (.opt t) x = conf w t x := by
   cases x <;> simp_all [conf]
 
+/-- at a value of an in-scope enum-member literal the hook (`self.unstructure`) yields the argument's key -/
+theorem un_lit_key (cfg : Cfg) {vs : List Obj} {x : Obj} (he : litHasEnum vs = true) (hx : litArgOK w x = true) :
+    un w cfg (.lit vs) x = litKey w x := by
+  rw [un]
+  simp only [he, if_true]
+  cases x <;> simp_all [litArgOK, Obj.isLeaf, unAny, litKey]
+
+theorem litOK_arg {vs : List Obj} {x : Obj} (he : litHasEnum vs = true) (hl : litOK w vs = true)
+    (hc : litConf vs x = true) : litArgOK w x = true ∧ litLookup w vs (litKey w x) = some x := by
+  have hx : x ∈ vs := by rw [litConf_enum x he] at hc; simpa using hc
+  simp only [litOK, he, Bool.not_true, Bool.false_or, Bool.and_eq_true, List.all_eq_true] at hl
+  exact ⟨hl.1 x hx, by simpa using hl.2 x hx⟩
+
+theorem hashPrim_unionsOK (tup : Bool) : ∀ (t : Ty), t.hashPrim = true → t.unionsOK w tup = true
+  | .int, _ | .float, _ | .str, _ | .bytes, _ | .bool, _ | .enum _, _ => by simp [Ty.unionsOK]
+  | .lit vs, h => by
+      simp only [Ty.hashPrim] at h
+      simp only [Ty.unionsOK, litOK, h, Bool.true_or]
+  | .opt t, h => by simp only [Ty.hashPrim] at h; simp only [Ty.unionsOK]; exact hashPrim_unionsOK tup t h
+  | .wrap _ t, h => by simp only [Ty.hashPrim] at h; simp only [Ty.unionsOK]; exact hashPrim_unionsOK tup t h
+  | .any, h | .coll _ _, h | .tupleHet _, h | .map _ _ _, h | .cls _, h | .td _, h | .union _ _, h | .nt _, h => by
+      simp [Ty.hashPrim] at h
+
 /-- unstructuring a non-`None` value never produces `None` (so `Optional` round-trips) -/
-theorem un_ne_none (td : Bool) (hg : cfg.gen = true) (hwe : w.WFE) :
-    ∀ (t : Ty) (x : Obj), t.supG td = true → conf w t x = true → x ≠ .none → un w cfg t x ≠ .none
-  | .any, _, hs, _, _ => by simp [Ty.supG] at hs
-  | .int, x, _, hc, _ => by cases x <;> simp_all [conf, un]
-  | .float, x, _, hc, _ => by cases x <;> simp_all [conf, un]
-  | .str, x, _, hc, _ => by cases x <;> simp_all [conf, un]
-  | .bytes, x, _, hc, _ => by cases x <;> simp_all [conf, un]
-  | .bool, x, _, hc, _ => by cases x <;> simp_all [conf, un]
-  | .enum e, .enumM e' m, _, hc, _ => by
+theorem un_ne_none (td tup : Bool) (hg : cfg.gen = true) (hwe : w.WFE) :
+    ∀ (t : Ty) (x : Obj), t.supG td = true → t.unionsOK w tup = true → conf w t x = true → x ≠ .none →
+      un w cfg t x ≠ .none
+  | .any, _, hs, _, _, _ => by simp [Ty.supG] at hs
+  | .int, x, _, _, hc, _ => by cases x <;> simp_all [conf, un]
+  | .float, x, _, _, hc, _ => by cases x <;> simp_all [conf, un]
+  | .str, x, _, _, hc, _ => by cases x <;> simp_all [conf, un]
+  | .bytes, x, _, _, hc, _ => by cases x <;> simp_all [conf, un]
+  | .bool, x, _, _, hc, _ => by cases x <;> simp_all [conf, un]
+  | .enum e, .enumM e' m, _, _, hc, _ => by
       simp only [conf, Bool.and_eq_true, beq_iff_eq, decide_eq_true_eq] at hc
       obtain ⟨rfl, hm⟩ := hc
       simp only [un, enumValue]
       have : (w.members e)[m]? = some ((w.members e)[m]'hm) := by simp [hm]
       rw [this]
       exact (hwe.enumLeaf e _ (List.getElem_mem hm)).2
-  | .enum e, .none, _, _, hx => absurd rfl hx
-  | .enum e, .bool _, _, hc, _ | .enum e, .int _, _, hc, _ | .enum e, .flt _, _, hc, _
-  | .enum e, .str _, _, hc, _ | .enum e, .bytes _, _, hc, _ | .enum e, .coll _ _, _, hc, _
-  | .enum e, .dict _, _, hc, _ | .enum e, .inst _ _, _, hc, _ | .enum e, .opaque _, _, hc, _ => by
+  | .enum e, .none, _, _, _, hx => absurd rfl hx
+  | .enum e, .bool _, _, _, hc, _ | .enum e, .int _, _, _, hc, _ | .enum e, .flt _, _, _, hc, _
+  | .enum e, .str _, _, _, hc, _ | .enum e, .bytes _, _, _, hc, _ | .enum e, .coll _ _, _, _, hc, _
+  | .enum e, .dict _, _, _, hc, _ | .enum e, .inst _ _, _, _, hc, _ | .enum e, .opaque _, _, _, hc, _ => by
       simp [conf] at hc
-  | .lit vs, x, _, _, hx => by simpa [un] using hx
-  | .coll k t, x, _, hc, _ => by
+  | .lit vs, x, _, hu, hc, hx => by
+      cases he : litHasEnum vs with
+      | false => rw [un_lit_simple w cfg x he]; exact hx
+      | true =>
+        have ha := (litOK_arg w he (by simpa [Ty.unionsOK] using hu) (by simpa [conf] using hc)).1
+        rw [un_lit_key w cfg he ha]
+        cases x with
+        | enumM e m =>
+          have hm : m < (w.members e).length := by simpa [litArgOK] using ha
+          simp only [litKey, enumValue]
+          have : (w.members e)[m]? = some ((w.members e)[m]'hm) := by simp [hm]
+          rw [this]
+          exact (hwe.enumLeaf e _ (List.getElem_mem hm)).2
+        | _ => simpa [litKey] using hx
+  | .coll k t, x, _, _, hc, _ => by
       cases x <;> simp [conf] at hc
       rw [un]; simp [hg, mkColl]
-  | .tupleHet ts, .coll .tuple xs, _, _, _ => by rw [un]; simp [hg]
-  | .tupleHet ts, .coll .list _, _, hc, _ | .tupleHet ts, .coll .deque _, _, hc, _
-  | .tupleHet ts, .coll .set _, _, hc, _ | .tupleHet ts, .coll .fset _, _, hc, _
-  | .tupleHet ts, .none, _, hc, _ | .tupleHet ts, .bool _, _, hc, _ | .tupleHet ts, .int _, _, hc, _
-  | .tupleHet ts, .flt _, _, hc, _ | .tupleHet ts, .str _, _, hc, _ | .tupleHet ts, .bytes _, _, hc, _
-  | .tupleHet ts, .enumM _ _, _, hc, _ | .tupleHet ts, .dict _, _, hc, _ | .tupleHet ts, .inst _ _, _, hc, _
-  | .tupleHet ts, .opaque _, _, hc, _ => by simp [conf] at hc
-  | .map _ kt vt, x, _, hc, _ => by
+  | .tupleHet ts, .coll .tuple xs, _, _, _, _ => by rw [un]; simp [hg]
+  | .tupleHet ts, .coll .list _, _, _, hc, _ | .tupleHet ts, .coll .deque _, _, _, hc, _
+  | .tupleHet ts, .coll .set _, _, _, hc, _ | .tupleHet ts, .coll .fset _, _, _, hc, _
+  | .tupleHet ts, .none, _, _, hc, _ | .tupleHet ts, .bool _, _, _, hc, _ | .tupleHet ts, .int _, _, _, hc, _
+  | .tupleHet ts, .flt _, _, _, hc, _ | .tupleHet ts, .str _, _, _, hc, _ | .tupleHet ts, .bytes _, _, _, hc, _
+  | .tupleHet ts, .enumM _ _, _, _, hc, _ | .tupleHet ts, .dict _, _, _, hc, _ | .tupleHet ts, .inst _ _, _, _, hc, _
+  | .tupleHet ts, .opaque _, _, _, hc, _ => by simp [conf] at hc
+  | .map _ kt vt, x, _, _, hc, _ => by
       cases x <;> simp [conf] at hc
       rw [un]; simp [hg]
-  | .opt t, x, hs, hc, hx => by
+  | .opt t, x, hs, hu, hc, hx => by
       rw [un_opt_some w cfg hx hg]
       rw [conf_opt_some w hx] at hc
-      exact un_ne_none td hg hwe t x (by simpa [Ty.supG] using hs) hc hx
-  | .wrap k t, x, hs, hc, hx => by
+      exact un_ne_none td tup hg hwe t x (by simpa [Ty.supG] using hs) (by simpa [Ty.unionsOK] using hu) hc hx
+  | .wrap k t, x, hs, hu, hc, hx => by
       simp only [un, hg, Bool.true_or, if_true]
-      exact un_ne_none td hg hwe t x (by simpa [Ty.supG] using hs) (by simpa [conf] using hc) hx
-  | .cls c, x, _, hc, _ => by
+      exact un_ne_none td tup hg hwe t x (by simpa [Ty.supG] using hs) (by simpa [Ty.unionsOK] using hu)
+        (by simpa [conf] using hc) hx
+  | .cls c, x, _, _, hc, _ => by
       cases x <;> simp [conf] at hc
       simp only [un]; split <;> simp
-  | .td c, x, _, hc, _ => by
+  | .td c, x, _, _, hc, _ => by
       cases x <;> simp [conf] at hc
       simp [un, hg]
-  | .union cs hn, x, _, hc, hx => by
+  | .union cs hn, x, _, _, hc, hx => by
       cases x <;> simp [conf] at hc
       · exact absurd rfl hx
       · simp only [un, unAny]; split <;> (try split) <;> simp
-  | .nt c, x, _, hc, _ => by
+  | .nt c, x, _, _, hc, _ => by
       cases x <;> simp [conf] at hc
       simp [un]
 
@@ -396,7 +456,10 @@ theorem un_hp (td : Bool) (hg : cfg.gen = true) (hwe : w.WFE) :
   | .str, _, _ => ⟨fun a hc hh => by cases a <;> simp_all [conf, un], fun a b ha hb h => by cases a <;> cases b <;> simp_all [conf, un]⟩
   | .bytes, _, _ => ⟨fun a hc hh => by cases a <;> simp_all [conf, un], fun a b ha hb h => by cases a <;> cases b <;> simp_all [conf, un]⟩
   | .bool, _, _ => ⟨fun a hc hh => by cases a <;> simp_all [conf, un], fun a b ha hb h => by cases a <;> cases b <;> simp_all [conf, un]⟩
-  | .lit vs, _, _ => ⟨fun a _ hh => by simpa [un] using hh, fun a b _ _ h => by simpa [un] using h⟩
+  | .lit vs, hp, _ => by
+      have hl : litHasEnum vs = false := by simpa [Ty.hashPrim] using hp
+      exact ⟨fun a _ hh => by rw [un_lit_simple w cfg a hl]; exact hh,
+        fun a b _ _ h => by rw [un_lit_simple w cfg a hl, un_lit_simple w cfg b hl] at h; exact h⟩
   | .enum e, _, _ => by
       constructor
       · intro a hc _
@@ -418,6 +481,7 @@ theorem un_hp (td : Bool) (hg : cfg.gen = true) (hwe : w.WFE) :
   | .opt t, hp, hs => by
       have ih := un_hp td hg hwe t (by simpa [Ty.hashPrim] using hp) (by simpa [Ty.supG] using hs)
       have hs' : t.supG td = true := by simpa [Ty.supG] using hs
+      have hp' : t.hashPrim = true := by simpa [Ty.hashPrim] using hp
       constructor
       · intro a hc hh
         by_cases ha : a = .none
@@ -433,7 +497,7 @@ theorem un_hp (td : Bool) (hg : cfg.gen = true) (hwe : w.WFE) :
             rw [conf_opt_some w hnb] at hb
             have : un w cfg (.opt t) .none = .none := by simp [un]
             rw [this, pyEq_none_left] at h
-            exact un_ne_none w cfg td hg hwe t b hs' hb hnb h
+            exact un_ne_none w cfg td false hg hwe t b hs' (hashPrim_unionsOK w false t hp') hb hnb h
         · by_cases hnb : b = .none
           · subst hnb
             exfalso
@@ -441,7 +505,7 @@ theorem un_hp (td : Bool) (hg : cfg.gen = true) (hwe : w.WFE) :
             rw [conf_opt_some w hna] at ha
             have : un w cfg (.opt t) .none = .none := by simp [un]
             rw [this, Obj.pyEq_symm, pyEq_none_left] at h
-            exact un_ne_none w cfg td hg hwe t a hs' ha hna h
+            exact un_ne_none w cfg td false hg hwe t a hs' (hashPrim_unionsOK w false t hp') ha hna h
           · rw [un_opt_some w cfg hna hg, un_opt_some w cfg hnb hg] at h
             rw [conf_opt_some w hna] at ha
             rw [conf_opt_some w hnb] at hb
